@@ -24,7 +24,7 @@ def graph_lines(nv, links, attrs=None, classes=None):
     for i in range(nv):
         c = (classes or {}).get(i, "V")
         a = (attrs or {}).get(i)
-        lines.append("vertex %s%s" % (c, (" a=0:%d" % a) if a is not None else ""))
+        lines.append("vertex %s%s" % (c, "" if a is None else (" a=" + a) if isinstance(a, str) else (" a=0:%d" % a)))
     for (k, a, b) in links:
         lines.append("edge %s %s %s" % (k, "-" if a is None else "V%d" % a, "-" if b is None else "V%d" % b))
     # universes: all, and all-but-i
@@ -43,12 +43,15 @@ def trav_queries(nv, starts, unis, modes, kinds=("bft", "dftr", "dfti"), via="-"
                     yield "%s %s V%d %d %d %s %s %s" % (t, u, s, d, k, via, res, listmode)
 
 
-def search_queries(nv, starts, unis, vals=(0, 1, 2, 5, 6, 7)):
+def search_queries(nv, starts, unis, vals=(0, 1, 2, 5, 6, 7, 8)):
     for s in starts:
         for u in unis:
             for t in ("bfs", "dfsr", "dfsi"):
                 for val in vals:
                     yield "%s %s V%d 0 %d" % (t, u, s, val)
+                for val in (1, 2):
+                    # attribute 3 has a dotted name (`a0.real`); a vertex whose a0 is the number 1 HAS `.a0.real == 1`
+                    yield "%s %s V%d 3 %d" % (t, u, s, val)
 
 
 ALLMODES = [(d, k) for d in (0, 1, 2) for k in (0, 1, 2)]
@@ -295,7 +298,9 @@ class TravBase(Check):
             for i in range(nv):
                 r = rng.random()
                 if r < 0.6:
-                    attrs[i] = rng.choice([0, 1, 1, 2, 5])
+                    attrs[i] = rng.choice([0, 1, 1, 2, 5, 8])
+                    if rng.random() < 0.3:
+                        attrs[i] = rng.choice(["3:1", "3:2", "0:1,3:2", "0:2,3:1"])
                 if rng.random() < 0.3:
                     classes[i] = "FV"
                 elif rng.random() < 0.2:
@@ -480,9 +485,9 @@ class C08(TravBase):
         t = line.split()
         if t[0] not in SEARCH or not out.startswith("ok "):
             return None
-        from adapter import VALREPS
+        from adapter import VALREPS, attrname
         uni, start = real.pv(t[1]), real.pv(t[2])
-        attr, val = "a" + t[3], VALREPS[int(t[4])][0]
+        attr, val = attrname(t[3]), VALREPS[int(t[4])][0]
         if uni is not None and len(uni.vertices) == 0:
             return None
         try:
